@@ -14,7 +14,7 @@ def run(tier, seed):
     R = Recorder()
     N = 14
     triples = [(F(0), F(10), F(3)), (F(0), F(10), F(-3)), (F(1, 2), F(7, 2), F(1, 3)), (F(2), F(5), F(5)), (F(3), F(4), F(0)), (F(0), F(1), F(1, 7)), (F(9), F(4), F(-1, 2)),
-               (F(0), F(10), F(-5)), (F(1), F(6), F(10)), (F(0), F(8), F(3, 2)), (F(5), F(3), F(-7, 3)), (F(0), F(256), F(1))]
+               (F(0), F(10), F(-5)), (F(1), F(6), F(10)), (F(0), F(1), F(-2)), (F(0), F(3), F(-7)), (F(2), F(3), F(-13, 2)), (F(1), F(2), F(9)), (F(0), F(5), F(-5, 2)), (F(0), F(8), F(3, 2)), (F(5), F(3), F(-7, 3)), (F(0), F(256), F(1))]
     for start, mod, step in triples:
         exp = [(start + k * step) % mod for k in range(N)]      # running sum reduced into [0, modulo)
         for ks, km, kst in itertools.product((0, 1), repeat=3):
